@@ -252,7 +252,10 @@ def verify_function(reg, c, budget_paths=MAX_PATHS):
     worklist = [[]]
     seen = 0
     import ast as _ast
-    exits = {n.lineno for n in _ast.walk(info.node) if isinstance(n, (_ast.Return, _ast.Raise))}
+    from .loops import _walk_own
+    # exits of the function's own body (nested functions that are only defined, not called, do not count)
+    exits = {n.lineno for n in _walk_own(info.node) if isinstance(n, (_ast.Return, _ast.Raise))} \
+        if not isinstance(info.node, _ast.Lambda) else set()
     covered = set()
     while worklist:
         prefix = worklist.pop()
